@@ -41,6 +41,8 @@ def explore(desc, tier, scratch=None, max_violations=3):
     trace = []
     violations = []
     nontrivial = set()
+    sites_seen = set()      # admissible call sites (caller, line, callee) seen in recordings
+    sites_hit = set()       # ... at which a fault was actually delivered
     world = World(desc, parent=scratch)
     try:
         world.build()
@@ -75,6 +77,9 @@ def explore(desc, tier, scratch=None, max_violations=3):
             if owin:
                 st['probes']['other_variable_mutated_by_code_under_test'] = \
                     st['probes'].get('other_variable_mutated_by_code_under_test', 0) + 1
+            for e in events[:r]:
+                if e['adm']:
+                    sites_seen.add(util.digest(identity(e))[:10])
             plan, nl1, nl2 = driver.plan_faults(events, r, l1, win, inv, tier, entry,
                                                    agg=world.w['plots'] != 'stub', blocked=blocked, owin=owin,
                                                    still_open=open_at_r | open_other)
@@ -114,6 +119,7 @@ def explore(desc, tier, scratch=None, max_violations=3):
                         tr['injected'].append([k, exc, when, 'diverged'])
                     continue
                 oc2 = outcome_class(world, res)
+                sites_hit.add(util.digest(identity(events[k]))[:10])
                 inwin = win is not None and k >= win
                 if inwin:
                     st['in_window_faults'] += 1
@@ -218,6 +224,7 @@ def explore(desc, tier, scratch=None, max_violations=3):
         world.close()
     out = {'seed': desc['seed'], 'digest': util.digest(trace), 'stats': st,
            'nontrivial': sorted(nontrivial), 'n_violations': len(violations),
+           'sets': {'call_sites_admissible': sorted(sites_seen), 'call_sites_injected': sorted(sites_hit)},
            'wall_s': _walltime.perf_counter() - t0}
     out['violations'] = [dict(v, desc=replay_desc(desc, v)) for v in violations[:max_violations]]
     out['sample'] = {'world': _brief(desc), 'trace': trace[:1]}
